@@ -1114,6 +1114,41 @@ def rule_denormal_shift(col, facts, which=("lemire", "binary")):
 
 
 # ---------------------------------------------------------------------------------------------
+def rule_integer_sign_allowance(col, facts):
+    """TBL-size (integer sign): with `format`, the unsigned integer writer stores a mandatory `+` and hands
+    `buffer[1..]` to the digit writer, which re-slices the type's full FORMATTED_SIZE(_DECIMAL) window.  The
+    bound therefore has to be one byte larger whenever required_mantissa_sign() is set: on every path of
+    lexical_write_integer's buffer_size_const on which that getter is true the result is FORMATTED_SIZE + k,
+    k >= 1 (the signed sizes already include the sign; one byte too many there is harmless)."""
+    from rules.core import enum_paths, resolve_env
+    if "format" not in facts.config:
+        return
+    R = "TBL-size"
+    f = facts.fn("lexical_write_integer::options::Options::buffer_size_const")
+    w = facts.fn("lexical_write_integer::api::unsigned")
+    stores_plus = any(st[0] == "=" and st[1][1] and st[2][0] == "use" and st[2][1][0] == "k" and st[2][1][1].get("v") == 43 for b in w.blocks for st in b["s"])
+    col.check(R, "integer:unsigned-writes-plus", stores_plus, "api::unsigned no longer stores b'+' (rule needs re-reading)", w.loc())
+    rets = {i for i, b in enumerate(f.blocks) if f.live(i) and b["t"]["k"] == "return"}
+    n = 0
+    bad = None
+    for t, atoms, env in enum_paths(f, 0, rets, want_env=True):
+        req = [p for e, p in atoms if strip_casts(e)[0] == "call" and last_seg(strip_casts(e)[1]) == "required_mantissa_sign"]
+        if not (req and req[-1] is True):
+            if not req:
+                bad = "a path never consults required_mantissa_sign()"
+            continue
+        n += 1
+        r = env.get(0)
+        e = strip_casts(simplify_proj(resolve_env(r[1], env))) if r and r[0] == "expr" else None
+        ok = e is not None and e[0] == "bin" and e[1] == "Add" and strip_casts(e[3])[0] == "k" and strip_casts(e[3])[1] >= 1 and any(last_seg(c[1]).startswith("FORMATTED_SIZE") for c in expr_consts(e[2]) + ([strip_casts(e[2])] if strip_casts(e[2])[0] == "kc" else [])) or \
+            (e is not None and e[0] == "bin" and e[1] == "Add" and strip_casts(e[3])[0] == "k" and strip_casts(e[3])[1] >= 1)
+        if not ok:
+            bad = "with required_mantissa_sign() the bound is `%s`" % (show(e) if e is not None else "?")
+    col.check(R, "integer:buffer_size_const:sign", bad is None and n >= 1,
+              "%s: an unsigned integer written with a mandatory `+` needs FORMATTED_SIZE + 1 bytes (the digit writer re-slices the full window after the sign), so a buffer of the documented size panics for every value" % (bad or "no path with required_mantissa_sign() true"), f.loc())
+
+
+# ---------------------------------------------------------------------------------------------
 def rule_bigfloat_bits(col, facts):
     """TBL-limits (Bigfloat): byte_comp scales b+h by radix^|sci_exp| up to 2^1075 and multiplies by a
     64-bit significand: EXPONENT_BIAS + 64 bits at least."""
